@@ -112,7 +112,7 @@ def run(rep: Report, tier: str) -> None:
     # visit_* method of the interpreter/transpiler as reachable from the API (they are dispatched from visit()/MAPPING tables)
     def api_reachable(q: str) -> bool:
         return q in reach or q.startswith(("vtlengine.Operators.", "vtlengine.Interpreter.", "vtlengine.duckdb_transpiler.Transpiler.",
-                                           "vtlengine.Utils.__Virtual_Assets.", "vtlengine.Exceptions.", "vtlengine.ViralPropagation."))
+                                           "vtlengine.Utils.__Virtual_Assets.", "vtlengine.Exceptions.", "vtlengine.ViralPropagation.", "vtlengine.AST.DAG.", "vtlengine.AST.ASTTemplate."))
     globalsx.report_shared_instances(P, rep, "R17.2", None, "a concurrent call reads the flags of the other call")
     nglob = 0
     for q, gvar in sorted(G.items()):
